@@ -71,7 +71,8 @@ def run(res, b, tier, seed):
                 cases.append(pipeline.Case("g%d" % i, {"main.tsh": src.encode()},
                                            meta=dict(src=src, expected_out="".join(l + "\n" for l in out), expected_status=status,
                                                      panic_in_func=ks.get("_panic_in_func", False), empty_substr=ks.get("_empty_substr", False),
-                                                     minint=ks.get("_minint", False))))
+                                                     minint=ks.get("_minint", False), switch_break=bool(ks.get("_switch_break")),
+                                                     switch_break_static=bool(ks.get("_switch_break_static")))))
         finally:
             gen_prog.BITS = 64
         pipeline.run_pipe(b, cases, "w")
@@ -126,6 +127,10 @@ def run(res, b, tier, seed):
         if c.meta["panic_in_func"] and res.known_finding("panic-in-function-returns-to-caller", what):
             continue
         if c.meta["empty_substr"] and res.known_finding("substring-of-empty-string", what):
+            continue
+        if c.meta.get("switch_break") and res.known_finding("break-in-switch", what):
+            continue
+        if c.meta.get("switch_break_static") and what.startswith("not transpiled: ERR break outside of a loop") and res.known_finding("break-in-switch", what):
             continue
         if c.meta["minint"] and r and r[0] == "stuck" and "number too large" in r[1] and res.known_finding("minint32-not-rereadable", what):
             continue
